@@ -17,6 +17,7 @@ import KafkaVerif.Spec.Crc
 import KafkaVerif.Model.ReaderLoopLTS
 import KafkaVerif.Model.PullReader
 import KafkaVerif.Model.ReaderWorld
+import KafkaVerif.Model.ByteReader
 
 namespace KV.OracleC02
 open KV KV.C02
@@ -156,17 +157,62 @@ def readerHolds (all final : List Rec) (positions : List Int) (lens : List Nat) 
 
 def lenPrefixed (b : Bytes) : Bytes := RW.beN 4 b.length ++ b
 
-/-- the driver's `Digest`: crc32 of key, value, 8-byte timestamp, headers (null and empty identified) -/
+/-- a nullable byte string: null has the length prefix 0xffffffff -/
+def optPrefixed : Option Bytes → Bytes
+  | none => RW.beN 4 0xffffffff
+  | some b => lenPrefixed b
+
+/-- the driver's `Digest`: crc32 of key, value, 8-byte timestamp, headers (null ≠ empty) -/
 def digestOf (key value : Option Bytes) (ts : Int) (hs : List Spec.RB.Hdr) : Nat :=
   Crc.crc32 Crc.polyIEEE
-    (lenPrefixed (key.getD []) ++ lenPrefixed (value.getD []) ++ RW.beN 8 (RW.toU RW.M64 ts) ++
-      hs.flatMap (fun h => lenPrefixed h.key ++ lenPrefixed (h.value.getD [])))
+    (optPrefixed key ++ optPrefixed value ++ RW.beN 8 (RW.toU RW.M64 ts) ++
+      hs.flatMap (fun h => lenPrefixed h.key ++ optPrefixed h.value))
 
 def tokCfg : TokCfg :=
   { crcs := { ieee := Crc.crc32 Crc.polyIEEE, castagnoli := Crc.crc32 Crc.polyCastagnoli },
     dec := fun _ _ => none,
     dg2 := fun fts r => digestOf r.key r.value (fts + r.tsDelta) r.headers,
     dg1 := fun m => digestOf m.key m.value (if m.magic = 0 then -1 else m.ts) [] }
+
+/-- the byte-level Go reads (Model/ByteReader.lean: readVarInt / readInt8 / runFunc / readMessageHeader with the
+`remain` accounting) walking a message set of uncompressed v2 batches: the 61 header bytes, then `count` records, each
+with `remain` = what is left of the whole set; errShortRead ends the walk like it ends the batch -/
+def brWalk : Nat → Option (H2 × Nat) → Bytes → List Tok
+  | 0, _, _ => []
+  | fuel + 1, st, bs =>
+    if bs.isEmpty then []
+    else match st with
+      | none =>
+        match Spec.RB.magicOf bs with
+        | none => [.cut]
+        | some mg =>
+          if mg = 2 then
+            if bs.length < 61 then [.cut]
+            else match readH2 bs with
+              | none => [.cut]
+              | some (h, rest) =>
+                Tok.h2 h.base h.lod h.count.toNat (h.attrs % 8 != 0) h.plen ::
+                  brWalk fuel (if h.count.toNat = 0 then none else some (h, h.count.toNat)) rest
+          else
+            -- a v0/v1 message: the fixed header, then readMessageV1's `readBytesWith(key)`, `readBytesWith(val)`
+            if bs.length < (if mg = 1 then 26 else 18) then [.cut]
+            else match readH1 bs with
+              | none => [.cut]
+              | some (h, rest) =>
+                let ts : Int := if mg = 1 then (match RW.readI64 (bs.drop 18) with | some (t, _) => t | none => 0) else -1
+                Tok.h1 h.magic.toNat h.off (h.attrs % 8 != 0) ::
+                  if rest.isEmpty then [] else      -- nothing left: the stream ends, no `cut` token
+                  match BR.readBodyV1 ⟨rest, rest.length⟩ with
+                  | .error _ => [.cut]
+                  | .ok ((k, v), r') =>
+                    Tok.kv (digestOf k v ts []) (rest.length - r'.bs.length) :: brWalk fuel none r'.bs
+      | some (h, k) =>
+        match BR.readRecordV2 ⟨bs, bs.length⟩ with
+        | .error _ => [.cut]
+        | .ok (v, r') =>
+          Tok.r2 v.offDelta (digestOf v.key v.value (h.firstTs + v.tsDelta) (v.headers.map fun x => ⟨x.1, x.2⟩))
+              v.consumed.toNat ::
+            brWalk fuel (if k ≤ 1 then none else some (h, k - 1)) r'.bs
 
 /-! ### op `rtrace`: replay of the RL.* hook events of one fetcher through the loop LTS (Model/ReaderLoopLTS.lean) -/
 
@@ -292,7 +338,10 @@ def replayStep (cfg : RCfg) (w : WCtx) (all final : List Rec) (r : Rep) (e : TEv
         else fail r s!"read: recorded offset={o} conn={c}, model offset={s'.offset} conn={s'.connOff}"
     else if cls == "kafka1" then
       if r.d.isEmpty then { r0 with s := s0, pendOOR := true } else fail r "OffsetOutOfRange after messages"
-    else if cls == "canceled" then { r0 with s := rstep cfg s0 .ctxCanceled }
+    else if cls == "canceled" then
+      -- the messages of the round that were handed on before the context was cancelled
+      if !(goodCutB all final q r.d) then failProp r s!"cancelled round at {q}: delivered {r.d.map (·.1)}: not an initial segment of the stored records"
+      else { r0 with s := rstep cfg s0 (.ctxCanceled r.d) }
     else if cls == "unknowncodec" then { r0 with s := rstep cfg s0 .unknownCodec }
     else match kcode cls with
       | some code => { r0 with s := rstep cfg s0 (.kerr code none) }
@@ -468,6 +517,42 @@ def step (line : String) : String :=
           let (bad, seen) := pullFuzz n.toNat (seed.toNat * 7919 + 12345) 0 0
           if seen == 0 then answer "nothing-examined" false else answer s!"mismatches={bad}" (bad == 0)
         | _, _ => "bad-op"
+      else if op == "grow" then
+        -- a partition that is being written to: every round through the world model's `fetchSnap`
+        match fieldInt ws "o", (field ws "snaps").bind (fun s => (s.splitOn ",").mapM (·.toNat?)),
+              (field ws "budgets").bind (fun s => (s.splitOn ",").mapM (·.toNat?)), (field ws "L").bind parseLayout with
+        | some o, some snaps, some budgets, some items =>
+          let rec go (rounds : List (Nat × Nat)) (st : RR) (acc : List String) : List String :=
+            match rounds with
+            | [] => acc
+            | (m, b) :: rest =>
+              let hwm : Int := match (items.take m).getLast? with | some it => it.last + 1 | none => 0
+              match worldEvent items st (.fetchSnap m b hwm false) with
+              | .data d off' oc =>
+                let acc := acc ++ [s!"{showDelivered d}@{off'}@{oc.show}"]
+                if oc == .eof || oc == .timedOut then
+                  go rest { rstep {} st (.data d off' oc) with slept := true } acc
+                else acc
+              | _ => acc
+          let model := "r=" ++ ";".intercalate
+            (go (snaps.zip budgets) { phase := .reading, offset := o, connOff := o, slept := true, start := some o } [])
+          answer model (model == impl)
+        | _, _, _, _ => "bad-op"
+      else if op == "readvs" then
+        -- Batch.Read and Batch.ReadMessage hand out the values of the same messages
+        let iw := words impl
+        match field iw "msg", field iw "read" with
+        | some a, some b => if a == b then answer impl true else answer s!"msg={a} read={a}" false
+        | _, _ => "bad-op"
+      else if op == "earlyclose" then
+        -- Batch.Close before the end of the batch: Close returned nil ⇒ the Conn is at a response boundary (the next call works)
+        let iw := words impl
+        match field iw "first", field iw "close", field iw "next" with
+        | some f, some c, some n =>
+          if f != "nil" then answer "first=nil" false
+          else if c == "nil" && n != "ok" then answer s!"first=nil close=<error> (or next=ok): Close returned nil but the next call on the Conn gave {n}" false
+          else answer impl true
+        | _, _, _ => "bad-op"
       else if op == "ftrace" then
         match (field ws "L").bind parseLayout, fieldInt ws "first", fieldInt ws "hwm",
               (field ws "T").map (fun t => (t.splitOn ";").map parseFTEv) with
@@ -510,7 +595,11 @@ def step (line : String) : String :=
         | some bytes, some items =>
           let expected := truncate (allTokens items) bytes.length
           let actual := tokenize tokCfg (bytes.length + 1) .hdr bytes
-          if actual == expected then answer "same" true
+          let plainV2 := items.all fun it => match it with | .b2 _ _ false _ _ => true | .m .. => true | _ => false
+          let go := brWalk (bytes.length + 1) none bytes
+          if plainV2 && go != expected then
+            answer s!"go-bytes-diff:{repr (go.zip expected |>.find? (fun p => p.1 != p.2))}" false
+          else if actual == expected then answer "same" true
           else answer s!"diff:{repr (actual.zip expected |>.find? (fun p => p.1 != p.2))}" false
         | _, _ => "bad-op"
       else if op == "reader" || op == "legacy-reader" then
